@@ -36,8 +36,12 @@ CONFIGS = [
     cfg("peer4nolog", N=4, head=0, manual=0, L=2, cap=4, pay=2, ctx=2, feats=(P, S, H)),
     cfg("man2inj2", N=2, head=1, manual=1, L=1, cap=2, pay=5, ctx=0, inj=2, feats=(P, S, H, G)),
     cfg("n6log", N=6, head=0, manual=1, L=5, cap=1, pay=4, ctx=1, feats=(G,)),
+    # state counts beyond one storage unit of the per-state bit sets (9, 17, 32 states)
+    cfg("n9plans", N=9, head=1, manual=0, L=3, cap=0, pay=3, ctx=1, feats=(P, S, H, G), scale=0.5),
+    cfg("n17peer", N=17, head=0, manual=1, L=2, cap=20, pay=0, ctx=2, inj=1, feats=(P, S, H), scale=0.4),
+    cfg("n32", N=32, head=1, manual=0, L=4, cap=5, pay=2, ctx=1, feats=(P, G, H), scale=0.3),
     # the extremes of the configuration types: largest substitution limit and task capacity (both uint8_t)
-    cfg("extreme", N=2, head=1, manual=0, L=255, cap=255, pay=1, ctx=1, feats=(P, S, H, G), scale=0.08),
+    cfg("extreme", N=2, head=1, manual=0, L=255, cap=254, pay=1, ctx=1, feats=(P, S, H, G), scale=0.08),
 ]
 
 # states that define no callback at all, observable only through the verbose log (C16)
